@@ -21,43 +21,61 @@ func H_C10_framing() {
 	n, err := m.write(id, buf)
 	vassert(err == nil, "write-error")
 	vassert(n == L, "write-count")
-	vassert(len(t.writes)%2 == 0 && len(t.writes) >= 2, "frame-structure")
-	if len(t.writes)%2 != 0 || len(t.writes) < 2 {
-		return
-	}
+	// the trunk stream is what counts, not how it was cut into Write calls
+	stream := trunkStream(t)
 	j := nondetInt() // arbitrary byte position of the caller's buffer
 	assume(j >= 0)
 	if L > 0 {
 		assume(j < L)
 	}
-	total := 0
-	for k := 0; k+1 < len(t.writes); k += 2 {
-		hdr, pl := t.writes[k], t.writes[k+1]
-		vassert(len(hdr) == headerLen, "header-length")
-		if len(hdr) != headerLen {
+	total, frames, off := 0, 0, 0
+	for off < len(stream) {
+		vassert(off+headerLen <= len(stream), "frame-structure")
+		if off+headerLen > len(stream) {
 			return
 		}
-		vassert(be32(hdr[0:4]) == uint32(id), "header-conn-id")
-		vassert(int(be32(hdr[4:8])) == len(pl), "header-payload-length")
-		vassert(len(pl) <= maxPayloadSize, "payload-exceeds-maximum")
-		if k+2 < len(t.writes) {
-			vassert(len(pl) == maxPayloadSize, "short-frame-before-the-last")
+		pl := int(be32(stream[off+4 : off+8]))
+		vassert(be32(stream[off:off+4]) == uint32(id), "header-conn-id")
+		vassert(off+headerLen+pl <= len(stream), "header-payload-length")
+		if off+headerLen+pl > len(stream) {
+			return
 		}
-		if L > 0 && j >= total && j < total+len(pl) {
-			vassert(pl[j-total] == buf[j], "payload-content")
+		vassert(pl <= maxPayloadSize, "payload-exceeds-maximum")
+		last := off+headerLen+pl == len(stream)
+		if !last {
+			vassert(pl == maxPayloadSize, "short-frame-before-the-last")
 		}
-		total += len(pl)
+		if L > 0 && j >= total && j < total+pl {
+			vassert(stream[off+headerLen+j-total] == buf[j], "payload-content")
+		}
+		total += pl
+		off += headerLen + pl
+		frames++
+		if frames > 5 {
+			vassert(false, "more-frames-than-needed")
+			return
+		}
 	}
+	vassert(frames >= 1, "frame-structure")
 	vassert(total == L, "payload-total")
 	switch {
 	case L == 0:
 		cover("empty")
-		vassert(len(t.writes) == 2, "empty-payload-frames")
-	case len(t.writes) == 2:
+		vassert(frames == 1, "empty-payload-frames")
+	case frames == 1:
 		cover("single")
 	default:
 		cover("multi")
 	}
+}
+
+// trunkStream: everything written to the trunk so far, as one byte stream.
+func trunkStream(t *envTrunk) []byte {
+	var stream []byte
+	for _, w := range t.writes {
+		stream = append(stream, w...)
+	}
+	return stream
 }
 
 // H_C10_pipe: two Writes on connection ids a and b (equal or different) go through the real writer of mux A
@@ -143,38 +161,139 @@ func H_C10_concurrent_writers() {
 	wg.Wait()
 	vassert(e1 == nil && e2 == nil, "write-error")
 	vassert(n1 == L1 && n2 == L2, "write-count")
-	vassert(len(t.writes)%2 == 0, "frame-structure")
-	if len(t.writes)%2 != 0 {
-		return
-	}
+	// frames are recovered from the Write calls, whether a frame was written as header + payload or at once
 	j := nondetInt()
 	assume(j >= 0)
-	tot1, tot2 := 0, 0
-	for k := 0; k+1 < len(t.writes); k += 2 {
-		hdr, pl := t.writes[k], t.writes[k+1]
-		vassert(len(hdr) == headerLen, "header-followed-by-something-else")
-		if len(hdr) != headerLen {
+	tot1, tot2, frames := 0, 0, 0
+	for k := 0; k < len(t.writes); {
+		w := t.writes[k]
+		vassert(len(w) >= headerLen, "header-followed-by-something-else")
+		if len(w) < headerLen {
 			return
 		}
-		id := ConnID(be32(hdr[0:4]))
-		vassert(int(be32(hdr[4:8])) == len(pl), "header-not-followed-by-its-payload")
-		vassert(id == ida || id == idb, "frame-for-unknown-connection")
-		if id == ida {
-			if j >= tot1 && j < tot1+len(pl) && j < L1 {
-				vassert(pl[j-tot1] == p1[j], "bytes-of-another-writer-in-the-stream")
+		id := ConnID(be32(w[0:4]))
+		pl := int(be32(w[4:8]))
+		var payload []byte
+		if len(w) == headerLen && (pl > 0 || (k+1 < len(t.writes) && len(t.writes[k+1]) == 0)) {
+			// header written on its own: the next Write is its payload
+			vassert(k+1 < len(t.writes), "header-not-followed-by-its-payload")
+			if k+1 >= len(t.writes) {
+				return
 			}
-			tot1 += len(pl)
-		} else if id == idb {
-			if j >= tot2 && j < tot2+len(pl) && j < L2 {
-				vassert(pl[j-tot2] == p2[j], "bytes-of-another-writer-in-the-stream")
-			}
-			tot2 += len(pl)
+			payload = t.writes[k+1]
+			k += 2
+		} else {
+			payload = w[headerLen:]
+			k++
 		}
+		vassert(len(payload) == pl, "header-not-followed-by-its-payload")
+		vassert(id == ida || id == idb, "frame-for-unknown-connection")
+		if len(payload) != pl {
+			return
+		}
+		if id == ida {
+			if j >= tot1 && j < tot1+pl && j < L1 {
+				vassert(payload[j-tot1] == p1[j], "bytes-of-another-writer-in-the-stream")
+			}
+			tot1 += pl
+		} else if id == idb {
+			if j >= tot2 && j < tot2+pl && j < L2 {
+				vassert(payload[j-tot2] == p2[j], "bytes-of-another-writer-in-the-stream")
+			}
+			tot2 += pl
+		}
+		frames++
 	}
 	vassert(tot1 == L1 && tot2 == L2, "stream-incomplete")
-	if len(t.writes) == 4 {
+	if frames == 2 {
 		cover("two-frames")
-	} else if len(t.writes) == 6 {
+	} else if frames == 3 {
+		cover("three-frames")
+	}
+}
+
+// H_C10_concurrent_same_conn: two goroutines write concurrently on the SAME connection id, the first a payload
+// that needs two frames (max < L1 <= max+3), the second up to max. A Write is delivered as a unit: the bytes
+// read from the connection are either all of the first Write followed by all of the second or the other way
+// round - the chunks of an oversized Write are never interleaved with another Write's (decided with one
+// arbitrary index per candidate order: both orders mismatching somewhere is the violation).
+//verif:property C10
+//verif:symbytes
+//verif:preempt 2
+//verif:expect-cover three-frames
+func H_C10_concurrent_same_conn() {
+	t := &envTrunk{mu: &sync.Mutex{}}
+	m := rawMux(t, 4)
+	id := ConnID(nondetUint32())
+	L1 := nondetInt()
+	assume(L1 > maxPayloadSize)
+	assume(L1 <= maxPayloadSize+3)
+	L2 := symPayloadLen(maxPayloadSize)
+	assume(L2 >= 1)
+	p1, p2 := nondetBytes(L1), nondetBytes(L2)
+	var wg sync.WaitGroup
+	var e1, e2 error
+	wg.Add(2)
+	go func() {
+		_, e1 = m.write(id, p1)
+		wg.Done()
+	}()
+	go func() {
+		_, e2 = m.write(id, p2)
+		wg.Done()
+	}()
+	wg.Wait()
+	vassert(e1 == nil && e2 == nil, "write-error")
+	var got []byte // what the peer reads from this connection: the payloads in trunk order
+	frames := 0
+	for k := 0; k < len(t.writes); {
+		w := t.writes[k]
+		if len(w) < headerLen {
+			vassert(false, "header-followed-by-something-else")
+			return
+		}
+		pl := int(be32(w[4:8]))
+		var payload []byte
+		if len(w) == headerLen && (pl > 0 || (k+1 < len(t.writes) && len(t.writes[k+1]) == 0)) {
+			if k+1 >= len(t.writes) {
+				vassert(false, "header-not-followed-by-its-payload")
+				return
+			}
+			payload = t.writes[k+1]
+			k += 2
+		} else {
+			payload = w[headerLen:]
+			k++
+		}
+		if len(payload) != pl {
+			vassert(false, "header-not-followed-by-its-payload")
+			return
+		}
+		got = append(got, payload...)
+		frames++
+	}
+	vassert(len(got) == L1+L2, "stream-incomplete")
+	if len(got) != L1+L2 {
+		return
+	}
+	j1, j2 := nondetInt(), nondetInt()
+	assume(j1 >= 0)
+	assume(j1 < L1+L2)
+	assume(j2 >= 0)
+	assume(j2 < L1+L2)
+	var a, b byte
+	if j1 < L1 { // order: first Write, then second
+		a = p1[j1]
+	} else {
+		a = p2[j1-L1]
+	}
+	if j2 < L2 { // order: second Write, then first
+		b = p2[j2]
+	} else {
+		b = p1[j2-L2]
+	}
+	vassert(bnot(band(got[j1] != a, got[j2] != b)), "concurrent-writes-on-one-connection-interleaved")
+	if frames == 3 {
 		cover("three-frames")
 	}
 }
